@@ -118,6 +118,19 @@ func c11Workload[T any](rep *Report, codec Codec[T], api string, rng *rand.Rand,
 				break
 			}
 		}
+		// two function-valued arguments in ONE call: each callable runs the caller's function at its own position
+		rep.Evaluations++
+		rep.Distinct++
+		var ranA, ranB int64
+		r = withWatchdog(func() (any, error) {
+			return rem.KeepTwo(context.Background(), 40,
+				func(ctx context.Context, i int, s string) (string, error) { atomic.AddInt64(&ranA, 1); return fmt.Sprintf("first:%d:%s", i, s), nil },
+				func(ctx context.Context, i int, s string) (string, error) { atomic.AddInt64(&ranB, 1); return fmt.Sprintf("second:%d:%s", i, s), errors.New("e2") })
+		})
+		if !r.ok || r.err != nil || r.val.(string) != "first:1:a/<nil>|second:2:b/e2" || ranA != 1 || ranB != 1 {
+			rep.addViolation("property", key+":two-callables", fmt.Sprintf("a call passing two functions, each invoked once by the callee (with (1,\"a\") and (2,\"b\")): the callee got %v (err %v); the first function ran %d time(s), the second %d", r.val, r.err, ranA, ranB),
+				map[string]any{"suite": "C11", "codec": codec.Name, "api": api, "dir": dir, "body": "two function arguments"})
+		}
 		d2 := map[string]any{"suite": "C11", "codec": codec.Name, "api": api, "dir": dir, "body": "passes a closure onwards"}
 		rep.Evaluations++
 		rep.Distinct++
@@ -488,5 +501,10 @@ func runC12(rep *Report, tier string, seed int64) {
 			}
 		}
 	}
-	_ = seed
+	// several links on ONE registry: a closure-carrying call in flight on each while one link is torn down
+	// (the closure table is registry-wide: another link's teardown must not release it)
+	hrng := rand.New(rand.NewSource(seed))
+	for _, mode := range []string{"cancel", "transport", "peer-cancel"} {
+		c13Workload(rep, jsonRaw(), 3, hrng, mode)
+	}
 }
